@@ -198,4 +198,245 @@ theorem visitPair_false {M M' : List (Pos × Pos)} {p q : Pos} (h : Model.visitP
   · simp [hc] at h
     exact h.symm
 
+/-! ## The shape check -/
+
+/-- What a shape check that comes back with `ok` does to the memo. -/
+def ShR (S : Schema) (D : Document) (m1 m2 : Memo) : Prop :=
+  m2.merge = m1.merge ∧ ShapeExt S D m1.shape m2.shape
+
+theorem ShR.refl (S : Schema) (D : Document) (m : Memo) : ShR S D m m := ⟨rfl, ShapeExt.refl S D _⟩
+
+theorem ShR.trans {S : Schema} {D : Document} {a b c : Memo} (h1 : ShR S D a b) (h2 : ShR S D b c) : ShR S D a c :=
+  ⟨h2.1.trans h1.1, h1.2.trans h2.2⟩
+
+theorem subU_of_collect {S : Schema} {D : Document} {a b : FRef} {fs1 fs : List FRef}
+    (hm1 : ∀ f, f ∈ fs1 ↔ (f ∈ ([] : List FRef) ∨ Sub S D a f)) (hm2 : ∀ f, f ∈ fs ↔ (f ∈ fs1 ∨ Sub S D b f)) (f : FRef) :
+    f ∈ fs ↔ SubU S D a b f := by
+  rw [hm2, hm1]
+  simp [SubU]
+
+theorem SubU.tfield {S : Schema} {D : Document} {a b x : FRef} (ta : TField S D a) (tb : TField S D b)
+    (h : SubU S D a b x) : TField S D x :=
+  h.elim (fun h => h.tfield ta) (fun h => h.tfield tb)
+
+theorem shape_sound {S : Schema} {D : Document} (h : MergeHyp S D) :
+    ∀ (fuel : Nat) (m m' : Memo) (a b : FRef), TField S D a → TField S D b →
+      Model.sameResponseShape S D (Model.fuelFor D) fuel m a b = (.ok, m') →
+      ShR S D m m' ∧ InM m'.shape a b := by
+  intro fuel
+  induction fuel with
+  | zero =>
+    intro m m' a b _ _ hr
+    simp [Model.sameResponseShape] at hr
+  | succ fuel ih =>
+    intro m m' a b ta tb hr
+    unfold Model.sameResponseShape at hr
+    cases hv : visitPair m.shape a.pos b.pos with
+    | mk seen shape' =>
+      rw [hv] at hr
+      cases seen with
+      | true =>
+        simp only [Prod.mk.injEq, true_and] at hr
+        subst hr
+        exact ⟨ShR.refl S D _, visitPair_true hv⟩
+      | false =>
+        have hs' := visitPair_false hv
+        simp only at hr
+        rw [shapeType_ok (ta.hasType h).1, shapeType_ok (tb.hasType h).1] at hr
+        simp only at hr
+        cases hu : unwrapShapes (typeOf a) (typeOf b) with
+        | error msg => rw [hu] at hr; simp at hr
+        | ok pr =>
+          obtain ⟨ua, ub⟩ := pr
+          rw [hu] at hr
+          simp only at hr
+          by_cases hleaf : (isLeafRef S ua || isLeafRef S ub) = true
+          · simp only [hleaf, if_true] at hr
+            by_cases he : ua = ub
+            · rw [if_pos he] at hr
+              simp only [Prod.mk.injEq, true_and] at hr
+              subst hr
+              refine ⟨⟨rfl, ?_, ?_⟩, ?_⟩
+              · intro p hp; simp only [hs']; exact List.mem_cons_of_mem _ hp
+              · intro p hp
+                simp only [hs', List.mem_cons] at hp
+                rcases hp with rfl | hp
+                · refine Or.inr ⟨a, b, ta, tb, rfl, by simp [shapeLocalOk, hu, hleaf, he], ?_⟩
+                  intro hd
+                  simp [shapeDeep, hu, hleaf] at hd
+                · exact Or.inl hp
+              · simp only [hs']; exact Or.inl (by simp)
+            · rw [if_neg he] at hr
+              simp at hr
+          · simp only [hleaf, if_false, Bool.false_eq_true] at hr
+            obtain ⟨fs1, hfs1, hm1⟩ := sub_collect h ta []
+            obtain ⟨fs, hfs, hm2⟩ := sub_collect h tb fs1
+            have hmem := subU_of_collect hm1 hm2
+            rw [hfs1] at hr
+            simp only at hr
+            rw [hfs] at hr
+            simp only at hr
+            have tf : ∀ f ∈ fs, TField S D f := fun f hf => ((hmem f).1 hf).tfield ta tb
+            obtain ⟨hR, hQ⟩ := anyOrder_inv (ShR S D) (ShR.refl S D) (fun _ _ _ => ShR.trans)
+              (fun (n : String) (m : Memo) => ∀ p ∈ Model.pairs (Model.group fs n), InM m.shape p.1 p.2)
+              (fun n m1 m2 hR hq p hp => (hq p hp).mono hR.2.1) _ _ _ _
+              (by
+                intro n _ m1 m2 hf
+                exact firstErr_inv (ShR S D) (ShR.refl S D) (fun _ _ _ => ShR.trans)
+                  (fun (p : FRef × FRef) (m : Memo) => InM m.shape p.1 p.2)
+                  (fun p m1 m2 hR hq => hq.mono hR.2.1) _ _ _ _
+                  (by
+                    intro p hp m3 m4 hf'
+                    obtain ⟨hp1, hp2⟩ := mem_pairs _ p hp
+                    rw [mem_group] at hp1 hp2
+                    exact ih m3 m4 p.1 p.2 (tf _ hp1.1) (tf _ hp2.1) hf')
+                  hf)
+              hr
+            have hsub : ∀ p ∈ shape', p ∈ m'.shape := hR.2.1
+            refine ⟨⟨hR.1, ?_, ?_⟩, ?_⟩
+            · intro p hp
+              apply hsub
+              simp only [hs']; exact List.mem_cons_of_mem _ hp
+            · intro p hp
+              rcases hR.2.2 p hp with hp' | hnew
+              · simp only [hs', List.mem_cons] at hp'
+                rcases hp' with rfl | hp'
+                · refine Or.inr ⟨a, b, ta, tb, rfl, by simp [shapeLocalOk, hu, hleaf], ?_⟩
+                  intro _ x y hx hy hxy hne
+                  have hx' := (hmem x).2 hx
+                  have hy' := (hmem y).2 hy
+                  have hn := mem_responseNames fs x hx'
+                  have gx : x ∈ Model.group fs x.rname := (mem_group _ _ _).2 ⟨hx', rfl⟩
+                  have gy : y ∈ Model.group fs x.rname := (mem_group _ _ _).2 ⟨hy', hxy.symm⟩
+                  rcases pairs_of_ne _ x y gx gy hne with hp | hp
+                  · exact hQ _ hn _ hp
+                  · exact (hQ _ hn _ hp).symm
+                · exact Or.inl hp'
+              · exact Or.inr hnew
+            · exact Or.inl (hsub _ (by simp [hs']))
+
+/-! ## The merge check -/
+
+theorem merge_sound {S : Schema} {D : Document} (h : MergeHyp S D) :
+    ∀ (fuel : Nat) (m m' : Memo) (fs : List FRef), (∀ f ∈ fs, TField S D f) →
+      fieldsInSetCanMerge S D (Model.fuelFor D) fuel m fs = (.ok, m') →
+      MemoExt S D m m' ∧ ∀ x ∈ fs, ∀ y ∈ fs, x.rname = y.rname → x ≠ y → InM m'.merge x y := by
+  intro fuel
+  induction fuel with
+  | zero =>
+    intro m m' fs _ hr
+    simp [fieldsInSetCanMerge] at hr
+  | succ fuel ih =>
+    intro m m' fs tf hr
+    unfold fieldsInSetCanMerge at hr
+    obtain ⟨hR, hQ⟩ := anyOrder_inv (MemoExt S D) (MemoExt.refl S D) (fun _ _ _ => MemoExt.trans)
+      (fun (n : String) (m : Memo) => ∀ p ∈ Model.pairs (Model.group fs n), InM m.merge p.1 p.2)
+      (fun n m1 m2 hR hq p hp => (hq p hp).mono hR.2.1) _ _ _ _
+      (by
+        intro n _ m1 m2 hf
+        exact firstErr_inv (MemoExt S D) (MemoExt.refl S D) (fun _ _ _ => MemoExt.trans)
+          (fun (p : FRef × FRef) (m : Memo) => InM m.merge p.1 p.2)
+          (fun p m1 m2 hR hq => hq.mono hR.2.1) _ _ _ _
+          (by
+            intro p hp m3 m4 hf'
+            obtain ⟨hp1, hp2⟩ := mem_pairs _ p hp
+            rw [mem_group] at hp1 hp2
+            obtain ⟨a, b⟩ := p
+            simp only at hp1 hp2 hf' ⊢
+            have ta := tf a hp1.1
+            have tb := tf b hp2.1
+            cases hv : visitPair m3.merge a.pos b.pos with
+            | mk seen merge' =>
+              rw [hv] at hf'
+              cases seen with
+              | true =>
+                simp only [Prod.mk.injEq, true_and] at hf'
+                subst hf'
+                exact ⟨MemoExt.refl S D _, visitPair_true hv⟩
+              | false =>
+                have hs' := visitPair_false hv
+                simp only at hf'
+                cases hsh : Model.sameResponseShape S D (Model.fuelFor D) (fuel + 1) { m3 with merge := merge' } a b with
+                | mk alt mB =>
+                  rw [hsh] at hf'
+                  cases alt with
+                  | errs e => simp at hf'
+                  | fuelOut => simp at hf'
+                  | ok =>
+                    obtain ⟨⟨hBm, hBs⟩, hBin⟩ := shape_sound h _ _ _ a b ta tb hsh
+                    simp only at hBm hBs hf'
+                    obtain ⟨pa, hpa⟩ := (ta.hasType h).2
+                    obtain ⟨pb, hpb⟩ := (tb.hasType h).2
+                    rw [hpa, hpb] at hf'
+                    simp only at hf'
+                    by_cases hc : (pa = pb || !isObjectName S pa || !isObjectName S pb) = true
+                    · rw [if_pos hc] at hf'
+                      by_cases hn : a.name = b.name
+                      · have hn' : (a.name != b.name) = false := by simp [hn]
+                        rw [hn'] at hf'
+                        simp only [Bool.false_eq_true, if_false] at hf'
+                        cases hd : argumentsDiffer a b with
+                        | some e => rw [hd] at hf'; simp at hf'
+                        | none =>
+                          rw [hd] at hf'
+                          simp only at hf'
+                          obtain ⟨fs1, hfs1, hm1⟩ := sub_collect h ta []
+                          obtain ⟨merged, hmg, hm2⟩ := sub_collect h tb fs1
+                          have hmem := subU_of_collect hm1 hm2
+                          rw [hfs1] at hf'
+                          simp only at hf'
+                          rw [hmg] at hf'
+                          simp only at hf'
+                          obtain ⟨hE, hP⟩ := ih mB m4 merged (fun f hf => ((hmem f).1 hf).tfield ta tb) hf'
+                          have hsubm : ∀ p ∈ merge', p ∈ m4.merge := fun p hp => hE.2.1 p (hBm ▸ hp)
+                          refine ⟨⟨hBs.trans hE.1, ?_, ?_⟩, ?_⟩
+                          · intro p hp
+                            apply hsubm
+                            simp only [hs']; exact List.mem_cons_of_mem _ hp
+                          · intro p hp
+                            rcases hE.2.2 p hp with hp' | hnew
+                            · rw [hBm] at hp'
+                              simp only [hs', List.mem_cons] at hp'
+                              rcases hp' with rfl | hp'
+                              · refine Or.inr ⟨a, b, ta, tb, rfl, hBin.mono hE.1.1, fun _ => ⟨?_, ?_⟩⟩
+                                · simp [mergeLocalOk, hn, hd]
+                                · intro x y hx hy hxy hne
+                                  exact hP x ((hmem x).2 hx) y ((hmem y).2 hy) hxy hne
+                              · exact Or.inl hp'
+                            · exact Or.inr hnew
+                          · exact Or.inl (hsubm _ (by simp [hs']))
+                      · have hn' : (a.name != b.name) = true := by simp [hn]
+                        rw [hn'] at hf'
+                        simp at hf'
+                    · rw [if_neg hc] at hf'
+                      simp only [Prod.mk.injEq, true_and] at hf'
+                      subst hf'
+                      have hpc : parentsCond S a b = false := by
+                        simp only [parentsCond, hpa, hpb]
+                        simpa using hc
+                      refine ⟨⟨hBs, ?_, ?_⟩, ?_⟩
+                      · intro p hp
+                        rw [hBm]
+                        simp only [hs']; exact List.mem_cons_of_mem _ hp
+                      · intro p hp
+                        rw [hBm] at hp
+                        simp only [hs', List.mem_cons] at hp
+                        rcases hp with rfl | hp
+                        · refine Or.inr ⟨a, b, ta, tb, rfl, hBin, fun hpc' => ?_⟩
+                          rw [hpc] at hpc'
+                          simp at hpc'
+                        · exact Or.inl hp
+                      · rw [hBm]
+                        exact Or.inl (by simp [hs']))
+          hf)
+      hr
+    refine ⟨hR, ?_⟩
+    intro x hx y hy hxy hne
+    have hn := mem_responseNames fs x hx
+    have gx : x ∈ Model.group fs x.rname := (mem_group _ _ _).2 ⟨hx, rfl⟩
+    have gy : y ∈ Model.group fs x.rname := (mem_group _ _ _).2 ⟨hy, hxy.symm⟩
+    rcases pairs_of_ne _ x y gx gy hne with hp | hp
+    · exact hQ _ hn _ hp
+    · exact (hQ _ hn _ hp).symm
+
 end ApiFu.C04
